@@ -359,7 +359,11 @@ class _SymSub(ast.NodeTransformer):
         if isinstance(n.value, ast.Name) and n.value.id == "self":
             return n
         if isinstance(n.ctx, ast.Load) and isinstance(n.value, ast.Name) and n.value.id not in self.bound:
-            v = self.st.get(f"{n.value.id}.{n.attr}")
+            base = n.value.id
+            alias = self.st.get(base)
+            if alias is not None and alias.isidentifier():
+                base = alias  # `p = q` : attributes recorded for q are p's
+            v = self.st.get(f"{base}.{n.attr}")
             if v is not None:
                 return ast.parse(v, mode="eval").body
         return self.generic_visit(n)
@@ -438,7 +442,7 @@ class SymInterp(PathInterp):
                     if isinstance(n, (ast.Assign, ast.AugAssign, ast.Delete)):
                         tgts = n.targets if isinstance(n, (ast.Assign, ast.Delete)) else [n.target]
                         for t in tgts:
-                            if isinstance(t, ast.Subscript) and isinstance(t.value, ast.Name):
+                            if isinstance(t, (ast.Subscript, ast.Attribute)) and isinstance(t.value, ast.Name) and t.value.id != "self":
                                 self.mutated.add(t.value.id)
                     elif isinstance(n, ast.Call) and isinstance(n.func, ast.Attribute) and isinstance(n.func.value, ast.Name) and n.func.attr in self.MUTATORS:
                         self.mutated.add(n.func.value.id)
